@@ -14,7 +14,7 @@ SIG = {
     'or': 'GG', 'choicet': ['GL'], 'choices': ['GL'], 'ornot': 'G', 'not': 'G', 'andis': 'GG', 'rewind': 'G',
     'map': 'MG', 'to': 'VG', 'ignored': 'G', 'filter': 'PG', 'trymap': 'PNNG', 'trymapw': 'PNNG',
     'tospan': 'G', 'toslice': 'G', 'mwspan': 'G', 'mwstate': 'G', 'mwctx': 'G', 'validate': 'PNNG',
-    'collect': ['K', 'IT'], 'collectx': ['N', 'IT'], 'foldl': ['F', 'G', 'IT'], 'foldr': ['F', 'IT', 'G'],
+    'collect': ['K', 'IT'], 'collectx': ['N', 'IT'], 'collectiw': ['G', 'IT'], 'collecttw': ['G', 'IT'], 'foldl': ['F', 'G', 'IT'], 'foldr': ['F', 'IT', 'G'],
     'foldlw': ['G', 'IT'], 'foldrw': ['IT', 'G'], 'iterp': ['IT'],
     'recvia': 'GG', 'recskip': 'GGGV', 'recretry': 'GGG', 'recnd': 'GNNNL', 'ndblock': 'NNNL', 'label': 'NBG', 'maperr': 'NG',
     'withctx': 'VG', 'iwctx': 'GG', 'twctx': 'GG', 'mapctx': 'XG', 'cfgjust': 'CL', 'withstate': 'G',
